@@ -19,13 +19,16 @@ def V(sig, clause, **detail):
 
 
 class Result:
-    __slots__ = ("violations", "nontrivial", "labels", "sample")
+    __slots__ = ("violations", "nontrivial", "labels", "sample", "evals", "nt_hashes")
 
-    def __init__(self, violations=None, nontrivial=False, labels=(), sample=None):
+    def __init__(self, violations=None, nontrivial=False, labels=(), sample=None,
+                 evals=1, nt_hashes=None):
         self.violations = list(violations or [])
         self.nontrivial = bool(nontrivial)
         self.labels = list(labels)
         self.sample = sample
+        self.evals = evals            # evaluations this case stands for (batched enumerations)
+        self.nt_hashes = nt_hashes    # hashes of the non-trivial evaluations inside a batch
 
 
 class Sub:
@@ -63,8 +66,13 @@ class Recorder:
         self.max_samples = 3
 
     def case(self, case, res):
-        self.evaluations += 1
-        if res.nontrivial:
+        self.evaluations += res.evals
+        if res.nt_hashes is not None:
+            new = set(res.nt_hashes) - self.nontrivial
+            self.nontrivial |= new
+            if new and len(self.samples) < self.max_samples and res.sample is not None:
+                self.samples.append(res.sample)
+        elif res.nontrivial:
             h = jhash(case)
             if h not in self.nontrivial:
                 self.nontrivial.add(h)
